@@ -129,7 +129,7 @@ structure Inv (Q : CNode K) (cover : Cover K) (zero : List (DN K)) (cur M : Nat)
   ub : UBOk δ pts K0 Q.p ub Off
   live : LiveOk δ pts K0 Q.p Q.leaves Off (zero ++ cover cur ++ hi cover cur M)
   leafs : ∀ e ∈ zero, e.node.children = []
-  sc : ∀ s, ∀ e ∈ cover s, cur ≤ s ∧ s ≤ M ∧ e.node.scale = s ∧ e.node.children ≠ []
+  sc : ∀ s, ∀ e ∈ cover s, cur ≤ s ∧ s ≤ M ∧ s ≤ e.node.scale ∧ e.node.children ≠ []
   qok : NodeOk δ pts Q
 
 variable {δ pts K0}
@@ -266,5 +266,189 @@ theorem copy_Inv (hm : IsMetric δ) (hK : 1 ≤ K0) {Q : CNode K} {cover : Cover
     · have hout : cc.2 s = Cover.empty s := hframe s (by omega)
       rw [hout] at he'
       simp [Cover.empty] at he'
+
+theorem hi_of_le (cover : Cover K) {cur M : Nat} (h : M ≤ cur) : hi cover cur M = [] := by
+  unfold hi
+  have : M - cur = 0 := by omega
+  rw [this]
+  rfl
+
+theorem hi_succ (cover : Cover K) {cur M : Nat} (h : cur < M) :
+    hi cover cur M = cover (cur + 1) ++ hi cover (cur + 1) M := by
+  unfold hi
+  have : M - cur = (M - (cur + 1)) + 1 := by omega
+  rw [this, range'_succ, flatMap_cons]
+
+/-- the first child of a query node inherits the whole state -/
+theorem Inv.first {Q : CNode K} {cover : Cover K} {zero : List (DN K)} {cur M : Nat} {ub : List K} {Off : List Nat}
+    (hI : Inv δ pts K0 Q cover zero cur M ub Off) {c0 : CNode K} {rest : List (CNode K)}
+    (hc : Q.children = c0 :: rest) : Inv δ pts K0 c0 cover zero cur M ub Off := by
+  obtain ⟨hc0p, _, hnodes, hleaves⟩ := child_facts hI.qok hc
+  exact ⟨hc0p ▸ hI.ub, hI.live.restrict hc0p (fun q hq => by rw [hleaves]; exact mem_append_left _ hq),
+    hI.leafs, hI.sc, hnodes c0 mem_cons_self⟩
+
+/-- **`internal_batch_nearest_neighbor` is correct**: if it answers, every result is good -/
+theorem internalBatch_good (hm : IsMetric δ) (hK : 1 ≤ K0) (leafScale : Nat) :
+    ∀ (fuel : Nat) (Q : CNode K) (cover : Cover K) (zero : List (DN K)) (cur M : Nat) (ub : List K) (Off : List Nat)
+      (res : List (List Nat)), Inv δ pts K0 Q cover zero cur M ub Off →
+      internalBatch δ K0 leafScale fuel Q cover zero cur M ub = some res → Good δ pts K0 Q.leaves res
+  | 0, _, _, _, _, _, _, _, _, _, h => by simp [internalBatch] at h
+  | fuel + 1, Q, cover, zero, cur, M, ub, Off, res, hI, h => by
+    unfold internalBatch at h
+    by_cases hA : cur > M
+    · -- all reference nodes have been descended
+      rw [if_pos hA] at h
+      have hcempty : cover cur = [] := by
+        apply eq_nil_iff_forall_not_mem.2
+        intro e he
+        have := (hI.sc cur e he).2.1
+        omega
+      have hB : BInv δ pts K0 Q zero ub Off := by
+        refine ⟨hI.ub, ?_, hI.leafs, hI.qok⟩
+        have := hI.live
+        rwa [hcempty, hi_of_le cover (by omega), append_nil, append_nil] at this
+      exact bruteNearest_good hm hK (fuel + 1) Q zero ub Off res hB h
+    · rw [if_neg hA] at h
+      have hcM : cur ≤ M := by omega
+      by_cases hB : Q.scale ≤ cur ∧ Q.scale ≠ leafScale
+      · -- the query node is split
+        rw [if_pos hB] at h
+        cases hc : Q.children with
+        | nil => rw [hc] at h; simp at h
+        | cons c0 rest =>
+          rw [hc] at h
+          dsimp only at h
+          obtain ⟨_, _, _, hleaves⟩ := child_facts hI.qok hc
+          -- results of the non-first children
+          generalize hrs : foldl _ (some []) rest = fr at h
+          cases fr with
+          | none => simp at h
+          | some rs =>
+            dsimp only at h
+            cases h0 : internalBatch δ K0 leafScale fuel c0 cover zero cur M ub with
+            | none => rw [h0] at h; simp at h
+            | some r0 =>
+              rw [h0] at h
+              simp only [Option.some.injEq] at h
+              subst h
+              have hg0 := internalBatch_good hm hK leafScale fuel c0 cover zero cur M ub Off r0 (hI.first hc) h0
+              have hgr : Good δ pts K0 ([] ++ rest.flatMap CNode.leaves) rs := by
+                refine foldl_results (δ := δ) (pts := pts) (K0 := K0)
+                  (fun C => internalBatch δ K0 leafScale fuel C
+                    (copyCover δ K0 C cover (M + 1 - cur) cur
+                      ((copyZero δ K0 C (fill K0 (addInf (ub0 K0 ub) C.parentDist)) zero).1, Cover.empty)).2
+                    (copyZero δ K0 C (fill K0 (addInf (ub0 K0 ub) C.parentDist)) zero).2 cur M
+                    (copyCover δ K0 C cover (M + 1 - cur) cur
+                      ((copyZero δ K0 C (fill K0 (addInf (ub0 K0 ub) C.parentDist)) zero).1, Cover.empty)).1)
+                  CNode.leaves _ ?_ ?_ rest [] [] rs hrs Good.nil ?_
+                · intro rs' C; rfl
+                · intro C; rfl
+                · intro C hC r hr
+                  obtain ⟨Off', hIC⟩ := copy_Inv hm hK hI hcM hc hC
+                  exact internalBatch_good hm hK leafScale fuel C _ _ cur M _ Off' r hIC hr
+              rw [nil_append] at hgr
+              have := hgr.append hg0
+              apply this.congr
+              intro q
+              rw [hleaves]
+              simp only [mem_append]
+              exact or_comm
+      · -- one more scale of the reference tree is descended
+        rw [if_neg hB] at h
+        dsimp only at h
+        have hσ : ∀ q' ∈ Q.leaves, δ Q.p q' ≤ Q.maxDist := leaves_within δ hI.qok.1
+        have hDI : DI δ pts K0 Q Q.leaves cur ⟨ub, M, cover, zero⟩ (cover cur) Off :=
+          ⟨hI.ub, hI.live, hI.leafs, fun s _ e he => (hI.sc s e he).2⟩
+        obtain ⟨Off', hD, hstep⟩ := descendParents_DI hm hK hσ (cover cur) ⟨ub, M, cover, zero⟩ Off hDI
+          (fun par hpar => (hI.sc cur par hpar).2.2)
+        set st := (cover cur).foldl (descendParent δ K0 Q) ⟨ub, M, cover, zero⟩ with hst
+        have hlow : ∀ s, s ≤ cur → st.cover s = cover s := hstep.low
+        have hInv' : Inv δ pts K0 Q (st.cover.clear cur) st.zero (cur + 1) st.maxScale st.ub Off' := by
+          refine ⟨hD.ub, ?_, hD.leafs, ?_, hI.qok⟩
+          · have hl := hD.live
+            unfold dlive at hl
+            rw [append_nil] at hl
+            have hclr : ∀ t, cur < t → (st.cover.clear cur) t = st.cover t := by
+              intro t ht
+              have : t ≠ cur := by omega
+              simp [Cover.clear, this]
+            have hhi : ∀ (a b : Nat), cur ≤ a → hi (st.cover.clear cur) a b = hi st.cover a b := by
+              intro a b ha
+              unfold hi
+              apply flatMap_congr
+              intro t ht
+              have := (mem_range'_1.1 ht).1
+              exact hclr t (by omega)
+            rw [hclr (cur + 1) (by omega), hhi (cur + 1) st.maxScale (by omega)]
+            by_cases hlt : cur < st.maxScale
+            · rw [hi_succ st.cover hlt, ← append_assoc] at hl
+              exact hl
+            · have hmax : st.maxScale ≤ cur := by omega
+              rw [hi_of_le st.cover hmax] at hl
+              have he1 : st.cover (cur + 1) = [] := hD.empty_above (cur + 1) (by omega) (by omega)
+              rw [he1, hi_of_le st.cover (by omega : st.maxScale ≤ cur + 1)]
+              simpa using hl
+          · intro s e he
+            have hsne : s ≠ cur := by
+              intro hs
+              subst hs
+              simp [Cover.clear] at he
+            have he' : e ∈ st.cover s := by simpa [Cover.clear, hsne] using he
+            by_cases hs : s < cur
+            · rw [hlow s (by omega)] at he'
+              have := (hI.sc s e he').1
+              omega
+            · have hcs : cur < s := by omega
+              have := hD.sc s hcs e he'
+              exact ⟨by omega, this⟩
+        exact internalBatch_good hm hK leafScale fuel Q _ _ _ _ _ Off' res hInv' h
+
+/-- **`cover_query_exact`** : on a well-formed tree over the samples `0..N-1`, for every metric, if the batch
+    query answers then it returns for every sample `q` at least one result `q :: cands`, and for every result the
+    candidate list is duplicate free and contains every sample near `q` (`Near`: no `K0` distinct samples are all
+    strictly closer) — which is what `find_neighbors_covertree_impl` needs to select the exact `K0 - 1` nearest
+    neighbours. -/
+theorem batchQuery_good (hm : IsMetric δ) (hK : 1 ≤ K0) {N : Nat} (leafScale : Nat) {top : CNode K}
+    (hwf : wfTree δ N top = true) (htopc : top.children ≠ []) {res : List (List Nat)}
+    (h : batchQuery δ K0 leafScale top = some res) :
+    Good δ (List.range N) K0 top.leaves res := by
+  unfold wfTree at hwf
+  simp only [Bool.and_eq_true, decide_eq_true_eq, beq_iff_eq, all_eq_true] at hwf
+  obtain ⟨⟨⟨hw, hnd⟩, hlen⟩, hall⟩ := hwf
+  have hok : NodeOk δ (List.range N) top := ⟨hw, hnd, fun x hx => mem_range.2 (hall x hx)⟩
+  have htop : top.p ∈ List.range N := hok.2.2 _ (p_mem_leaves δ top hw)
+  unfold batchQuery at h
+  dsimp only at h
+  apply internalBatch_good hm hK leafScale _ top _ [] 0 0 _ [top.p] res ?_ h
+  have hc0 : (Cover.empty.push 0 ⟨δ top.p top.p, top⟩ : Cover K) 0 = [⟨δ top.p top.p, top⟩] := by
+    simp [Cover.push, Cover.empty]
+  have hcs : ∀ s, s ≠ 0 → (Cover.empty.push 0 ⟨δ top.p top.p, top⟩ : Cover K) s = [] := by
+    intro s hs
+    simp [Cover.push, Cover.empty, hs]
+  refine ⟨UBOk.init hK htop, ?_, by simp, ?_, hok⟩
+  · rw [hc0, hi_of_le _ (Nat.le_refl 0)]
+    simp only [nil_append, append_nil]
+    refine ⟨by simp, by simpa using hok, by simpa using hnd, ?_, ?_⟩
+    · intro e he o ho hol
+      simp only [mem_singleton] at he ho
+      subst he ho
+      rfl
+    · intro q' hq c hn
+      refine ⟨⟨δ top.p top.p, top⟩, by simp, ?_⟩
+      -- every sample is a leaf of the top node
+      have hcN : c ∈ List.range N := hn.1
+      have : top.leaves.Perm (List.range N) := by
+        have hsp : top.leaves <+~ List.range N := hnd.subperm (fun x hx => mem_range.2 (hall x hx))
+        exact hsp.perm_of_length_le (by simp [hlen])
+      exact this.mem_iff.2 hcN
+  · intro s e he
+    by_cases hs : s = 0
+    · subst hs
+      rw [hc0] at he
+      simp only [mem_singleton] at he
+      subst he
+      exact ⟨Nat.le_refl _, Nat.le_refl _, Nat.zero_le _, htopc⟩
+    · rw [hcs s hs] at he
+      simp at he
 
 end TapkeeVerif.CoverTree
